@@ -404,6 +404,56 @@ def oracle_overlap(rng, n, R):
                 R.fail("C16:tversky_loss:not-one-minus-index", "tversky_loss != 1 - tversky_index", **base)
 
 
+def oracle_tversky_forms(rng, n, R):
+    """documented input / target forms of tversky_index: (N, 1|C, ..., X) predictions; targets as label map (N, ..., X),
+    binary (N, 1, ..., X) or one-hot (N, C, ..., X)"""
+    for it in range(n):
+        D, N, _, sp = rshape(rng)
+        eps = rng.choice([1e-3, 0.25])
+        kw = dict(alpha=0.3, beta=0.7, epsilon=eps, reduction="none")
+        fg = rnd(rng, [N, 1] + sp, 0, 1)
+        p2 = torch.cat([1 - fg, fg], 1)                      # background, foreground
+        tb = rbin(rng, [N, 1] + sp)
+        t2 = torch.cat([1 - tb, tb], 1)
+        base = {"shape": [N] + sp, "eps": eps, "fg": spec(fg), "target": spec(tb)}
+        R.tick("tversky-forms")
+        try:
+            ref = L.tversky_index(fg, tb, **kw)
+            a = L.tversky_index(p2, tb, **kw)
+            if not close(a, ref, 1e-6):
+                R.fail("C16:tversky_index:two-channel-prediction-binary-target", "2-channel prediction with a binary target is not scored on the foreground channel", **base)
+            a = L.tversky_index(fg, t2, **kw)
+            if not close(a, ref, 1e-6):
+                R.fail("C16:tversky_index:binary-prediction-onehot-target", "1-channel prediction with a 2-channel one-hot target is not scored against channel 1", **base)
+            a = L.tversky_index(fg, tb[:, 0], **kw)
+            if not close(a, ref, 1e-6):
+                R.fail("C16:tversky_index:labelmap-target-binary", "label-map target (N, ..., X) differs from the binary target (N, 1, ..., X)", **base)
+            a = L.tversky_index(p2, t2, **kw)
+            if list(a.shape) != [N, 2] or not close(a[:, 1:], ref, 1e-6):
+                R.fail("C16:tversky_index:onehot", "one-hot 2-channel case: channel 1 differs from the binary case", **base)
+        except Exception as e:  # noqa
+            R.fail("C16:tversky_index:forms-raise", f"raises {type(e).__name__}: {str(e)[:140]}", **base)
+        # multi-class: label map (N, ..., X) is the one-hot target
+        C = rng.choice([2, 3, 4])
+        pm = rnd(rng, [N, C] + sp, 0, 1).softmax(1)
+        lab = torch.tensor([rng.randrange(C) for _ in range(N * int(torch.tensor(sp).prod()))]).reshape([N] + sp)
+        oh = torch.nn.functional.one_hot(lab, C).movedim(-1, 1).to(pm.dtype)
+        basem = {"shape": [N, C] + sp, "labels": lab.reshape(-1).tolist()[:64], "eps": eps}
+        R.tick("tversky-forms")
+        try:
+            want = L.tversky_index(pm, oh, **kw)
+        except Exception as e:  # noqa
+            R.fail("C16:tversky_index:forms-raise", f"one-hot target raises {type(e).__name__}: {str(e)[:140]}", **basem)
+            continue
+        try:
+            got = L.tversky_index(pm, lab, **kw)
+            if not close(got, want, 1e-6):
+                R.fail("C16:tversky_index:labelmap-target-multiclass", "label-map target differs from its one-hot encoding", **basem)
+        except Exception as e:  # noqa
+            R.fail("C16:tversky_index:labelmap-target-multiclass-raises",
+                   f"documented label-map target (N, ..., X) with a {C}-channel prediction raises {type(e).__name__}: {str(e)[:120]}", **basem)
+
+
 def oracle_wlcc_masks(rng, n, R):
     """the three masks of wlcc_loss: defaulting rules"""
     for it in range(n):
@@ -548,6 +598,7 @@ def oracle(p):
     oracle_similarity(rng, n, R)
     oracle_overlap(rng, n, R)
     oracle_wlcc_masks(rng, max(n // 2, 8), R)
+    oracle_tversky_forms(rng, max(n // 4, 6), R)
     oracle_mi(rng, max(n // 4, 4), R)
     oracle_modules(rng, max(n // 2, 8), R)
     # keep the first (smallest) failure per key
@@ -564,6 +615,7 @@ def raises_table():
     """the calls the translator attempts symbolically (tr_units/losses.py: attempt), on the real code"""
     x, y, w = torch.rand(1, 1, 2, 2), torch.rand(1, 1, 2, 2), torch.rand(1, 1, 2, 2)
     calls = {
+        "tversky_index_p3_t1": lambda: L.tversky_index(torch.rand(1, 3, 1, 2), torch.rand(1, 1, 1, 2), epsilon=0.1),
         "tversky_index_binary_weight": lambda: L.tversky_index(x, y, weight=w, epsilon=0.1),
         "tversky_loss": lambda: L.tversky_loss(x, y, epsilon=0.1),
         "tversky_loss_gamma_half": lambda: L.tversky_loss(x, y, gamma=0.5, epsilon=0.1),
